@@ -39,7 +39,7 @@ def make_system(name):
 
 PLANS = {
     'quick': [('OPS', 5, 1), ('OPS', 4, 2), ('OPS2', 4, 1)],
-    'thorough': [('OPS', 7, 1), ('OPS', 6, 2), ('OPS2', 6, 1), ('OPS2', 5, 2), ('coreLang', 5, 1)],
+    'thorough': [('OPS', 6, 1), ('OPS', 5, 2), ('OPS2', 5, 1), ('OPS2', 4, 2), ('coreLang', 4, 1)],
 }
 
 
